@@ -148,6 +148,8 @@ class Renderer:
         self.canonical_clear = canonical_clear
         # known-finding switch: wrap unary minus / NOT so that the operator's reach is explicit
         self.paren_unary = paren_unary
+        self._depth = 0
+        self._risky = set()
 
     # --------------------------------------------------------------- joining
     def j(self, *parts):
@@ -192,7 +194,7 @@ class Renderer:
         if e[0] in ("not", "bnot"):
             # the tool documents that an inner NOT must be parenthesised ("A AND NOT B" is refused)
             return self.j("(", txt, ")")
-        if self.paren_unary and e[0] == "neg":
+        if self.paren_unary and e[0] == "neg" and id(e) in self._risky:
             return self.j("(", txt, ")")
         return txt
 
@@ -204,7 +206,52 @@ class Renderer:
             parts.append(self.expr(a))
         return self.j("(", *parts, ")")
 
+    def _collect_risky(self, e, risky):
+        """Open finding (unary operand reach): the tool reads a unary minus as covering the whole rest of its expression.  Where that rest is
+        emitted as flat infix text (+ - * / and comparisons in numeric context) BASIC09 regroups it correctly; it goes wrong when the rest holds
+        AND / OR / NOT (emitted in function form) or is the comparison of an IF condition (the tool then appends its own test).  Those minus
+        signs - anywhere below such an operator and not isolated by parentheses or a call - are the ones the switch parenthesises."""
+        k = e[0]
+        if k in ("par", "bpar"):
+            self._collect_risky(e[1], False)
+        elif k == "fn":
+            for a in e[2]:
+                self._collect_risky(a, False)
+        elif k in ("arr", "sarr"):
+            for a in e[2]:
+                self._collect_risky(a, False)
+        elif k == "varptr":
+            self._collect_risky(e[1], False)
+        elif k == "bin":
+            r = risky or e[1] in ("AND", "OR")
+            self._collect_risky(e[2], r)
+            self._collect_risky(e[3], r)
+        elif k in ("cmp", "scmp", "band", "bor"):
+            for c in e[1:] if k in ("band", "bor") else e[2:]:
+                self._collect_risky(c, True)
+        elif k in ("not", "bnot"):
+            self._collect_risky(e[1], True)
+        elif k == "nz":
+            self._collect_risky(e[1], risky)
+        elif k == "scat":
+            self._collect_risky(e[1], risky)
+            self._collect_risky(e[2], risky)
+        elif k == "neg":
+            if risky:
+                self._risky.add(id(e))
+            self._collect_risky(e[1], risky)
+
     def expr(self, e):
+        if self._depth == 0 and self.paren_unary:
+            self._risky = set()
+            self._collect_risky(e, False)
+        self._depth += 1
+        try:
+            return self._expr(e)
+        finally:
+            self._depth -= 1
+
+    def _expr(self, e):
         k = e[0]
         if k == "num":
             return self.L.numeric_inner(e[1])
@@ -234,13 +281,13 @@ class Renderer:
         if k == "neg":
             inner = e[1]
             txt = self.expr(inner)
-            if self.prec(inner) < PREC["NEG"] or (self.paren_unary and self.prec(inner) < 10) or inner[0] == "neg":
+            if self.prec(inner) < PREC["NEG"] or (self.paren_unary and inner[0] == "bin" and inner[1] == "^") or inner[0] == "neg":
                 txt = self.j("(", txt, ")")
             return self.j("-", txt)
         if k in ("not", "bnot"):
             inner = e[1]
             txt = self.expr(inner)
-            if self.prec(inner) < PREC["NOT"] or (self.paren_unary and self.prec(inner) < 10):
+            if self.prec(inner) < PREC["NOT"]:
                 txt = self.j("(", txt, ")")
             return self.j("NOT", txt)
         if k == "band":
